@@ -305,13 +305,13 @@ static void exec_one(prog_t *p, op_t *o, op_t *prev) {
             break;
         }
         case OP_OMIT: coop_call_begin("jls_twr_fsr_omit_data"); api("jls_twr_fsr_omit_data"); rc = jls_twr_fsr_omit_data(g_wr, o->id, o->enable); break;
-        case OP_ANNO: { uint8_t *b = gen_payload(o->stype, o->dsize, o->dseed); coop_call_begin("jls_twr_annotation"); api("jls_twr_annotation"); rc = jls_twr_annotation(g_wr, o->id, o->ts, o->y, o->atype, o->group, o->stype, b, o->dsize); free(b); break; }
+        case OP_ANNO: { uint8_t *b = gen_payload(o->stype, o->dsize, o->dseed); coop_call_begin("jls_twr_annotation"); api("jls_twr_annotation"); rc = jls_twr_annotation(g_wr, o->id, o->ts, o->y, o->atype, o->group, o->stype, b, twr_size_arg(o->stype, o->dsize, o->dseed)); free(b); break; }
         case OP_UTC: coop_call_begin("jls_twr_utc"); api("jls_twr_utc"); rc = jls_twr_utc(g_wr, o->id, o->sid, o->utc); break;
         case OP_USER: {
             uint8_t *b = gen_payload(o->stype, o->dsize, o->dseed);
             if (o->expect_reject == 9 && g_controlled && o->thread == 0) { memcpy(g_marker, b, 16); g_marker_seq = -1; g_fsync_after_marker = -1; g_marker_armed = 1; }
             coop_call_begin("jls_twr_user_data"); api("jls_twr_user_data");
-            rc = jls_twr_user_data(g_wr, o->meta, o->stype, b, o->dsize);
+            rc = jls_twr_user_data(g_wr, o->meta, o->stype, b, twr_size_arg(o->stype, o->dsize, o->dseed));
             free(b);
             break;
         }
